@@ -230,39 +230,66 @@ def poly_rules(chk):
 
 
 # ---------------------------------------------------------------------------------------------------------------------
+def _guard_key(test):
+    """(condition name, polarity) of a guard test, whatever its spelling: polarity True means `test is true <=> the condition holds`"""
+    pol = True
+    while isinstance(test, ast.UnaryOp) and isinstance(test.op, ast.Not):
+        test, pol = test.operand, not pol
+    t = " ".join(ast.unparse(test).split())
+    if isinstance(test, ast.Compare) and len(test.ops) == 1 and isinstance(test.ops[0], (ast.Eq, ast.NotEq)):
+        sides = {" ".join(ast.unparse(x).split()) for x in (test.left, test.comparators[0])}
+        if isinstance(test.ops[0], ast.NotEq):
+            pol = not pol
+        if "len(series)" in sides and sides & {"self.npts", "len(self.values)", "self._npts", "len(self._values)"}:
+            return "same-length", pol
+        if sides == {"new_signal.dt", "self.dt"}:
+            return "same-dt", pol
+    if isinstance(test, ast.Call) and t == "isinstance(new_signal, Signal)":
+        return "is-signal", pol
+    return None, None
+
+
+def _guard_paths(chk, qual, construct, build, conditions, effect_callees):
+    """Path enumeration with a branch oracle: when every condition holds the effect is reached and nothing is raised; when any one
+    fails (the others holding) the routine raises and the effect is not reached.  Guard clauses, if/else nesting and negated tests
+    are all the same thing to this rule."""
+    P = chk.P
+    fi = P.fn(qual)
+    for failing in [None] + list(conditions):
+        seen = set()
+
+        def setup(I, failing=failing):
+            def oracle(fr, node):
+                if fr.fi.qualname != qual:
+                    return True if fr.fi.qualname == SIG + ".add_series" else None
+                key, pol = _guard_key(node.test)
+                if key is None:
+                    return None
+                seen.add(key)
+                holds = key != failing
+                return holds if pol else (not holds)
+            I.branch_oracle = oracle
+            I.oracle_first = True       # the guard tests fold on the generic arguments (equal symbolic lengths); the path is chosen here
+        r = analyse(chk, qual, build, self_cls=SIG, atoms=(R, DT, "R2"), setup=setup)
+        eff = [e for e in r.I.events if e.kind == "call" and e.fn == qual and e.callee.split(".")[-1] in effect_callees]
+        rs = [e for e in r.I.events if e.kind == "raise" and e.fn == qual]
+        if failing is None:
+            chk.ob("R-ADD-GUARD", construct + "{accepted}", "with %s holding the sum is stored and nothing is raised" % " and ".join(conditions),
+                   len(eff) >= 1 and not rs and seen >= set(conditions), derived="%d store(s), %d raise(s), tests met: %s" % (len(eff), len(rs), sorted(seen)),
+                   loc=fi.loc())
+        else:
+            chk.ob("R-ADD-GUARD", construct + "{rejected: not %s}" % failing, "raises and stores nothing", len(rs) >= 1 and not eff,
+                   derived="%d store(s), %d raise(s)" % (len(eff), len(rs)), loc=fi.loc())
+
+
 def add_rules(chk):
     P = chk.P
-    # add_series: reset under the length guard, raise otherwise
-    fi = P.fn(SIG + ".add_series")
-    c = "eqsig/single.py:Signal.add_series"
-    guard = None
-    for n in ast.walk(fi.node):
-        if isinstance(n, ast.If) and isinstance(n.test, ast.Compare) and len(n.test.ops) == 1:
-            t = ast.unparse(n.test)
-            if "len(series)" in t and ("self.npts" in t or "len(self.values)" in t):
-                guard = n
-    if guard is None:
-        chk.ob("R-ADD-GUARD", c, "a test comparing len(series) with npts", False, derived="not found", loc=fi.loc())
-    else:
-        eq = isinstance(guard.test.ops[0], ast.Eq)
-        ne = isinstance(guard.test.ops[0], ast.NotEq)
-        ok_b, bad_b = (guard.body, guard.orelse) if eq else (guard.orelse, guard.body)
-        stores = [x for b in ok_b for x in ast.walk(b) if isinstance(x, ast.Call) and isinstance(x.func, ast.Attribute) and x.func.attr == "reset_values"]
-        raises = [x for b in bad_b for x in ast.walk(b) if isinstance(x, ast.Raise)]
-        elsewhere = [x for x in ast.walk(fi.node) if isinstance(x, ast.Call) and isinstance(x.func, ast.Attribute) and
-                     x.func.attr in ("reset_values",) and not any(x is y for y in stores)]
-        chk.ob("R-ADD-GUARD", c + "{guard}", "stores only when len(series) == npts, raises otherwise", (eq or ne) and len(stores) == 1 and
-               len(raises) >= 1 and not elsewhere, derived="test %s; %d guarded store(s), %d raise(s) on the other branch, %d unguarded store(s)"
-               % (type(guard.test.ops[0]).__name__, len(stores), len(raises), len(elsewhere)), loc=fi.loc(guard), stmt=norm_stmt(guard.test))
-    # add_signal: isinstance + dt equality
-    fi = P.fn(SIG + ".add_signal")
+    _guard_paths(chk, SIG + ".add_series", "eqsig/single.py:Signal.add_series", lambda I, st, fi: dict(series=rec_array("series", atom="R2")),
+                 ["same-length"], ("reset_values",))
+    _guard_paths(chk, SIG + ".add_signal", "eqsig/single.py:Signal.add_signal",
+                 lambda I, st, fi: dict(new_signal=make_signal(I, st, P.cls(SIG), name="new_signal", atom="R2")[1]),
+                 ["is-signal", "same-dt"], ("add_series", "reset_values"))
     c = "eqsig/single.py:Signal.add_signal"
-    tests = [ast.unparse(n.test) for n in ast.walk(fi.node) if isinstance(n, ast.If)]
-    has_inst = any("isinstance(new_signal, Signal)" in t for t in tests)
-    has_dt = any(("new_signal.dt == self.dt" in t) or ("self.dt == new_signal.dt" in t) for t in tests)
-    n_raise = sum(1 for n in ast.walk(fi.node) if isinstance(n, ast.Raise))
-    chk.ob("R-ADD-GUARD", c + "{guards}", "isinstance(new_signal, Signal) and equal dt, raising otherwise", has_inst and has_dt and n_raise >= 2,
-           derived="isinstance test: %s; dt test: %s; %d raise(s)" % (has_inst, has_dt, n_raise), loc=fi.loc())
     # interpretation: accepted path adds the other signal's values through add_series
     def setup(I):
         I.branch_oracle = lambda fr, node: (True if fr.fi.qualname in (SIG + ".add_signal", SIG + ".add_series") else None)
@@ -290,56 +317,91 @@ def add_rules(chk):
 
 
 # ---------------------------------------------------------------------------------------------------------------------
-def window_table(fi, rename):
-    """[(branch condition, slice of the read)] of the rolling-window loop, canonical"""
-    loops = [n for n in ast.walk(fi.node) if isinstance(n, ast.For) and any(isinstance(x, ast.If) for x in n.body)]
+def window_table(fi, rename=None):
+    """[(op, lhs, rhs) | None, ((lower | None, upper | None), ...)] per branch of the rolling-window loop, as polynomials in canonical
+    names: the array inside np.mean(...) is X, the loop variable i; hoisted temporaries (h = int(width / 2), n = len(X)) are inlined;
+    the mean may sit in every branch or once after the branches (which then only choose the slice bounds)."""
+    loops = [n for n in ast.walk(fi.node) if isinstance(n, ast.For) and any(isinstance(x, ast.If) for x in n.body) and
+             any(isinstance(c, ast.Call) and ast.unparse(c.func).split(".")[-1] == "mean" for c in ast.walk(n))]
     if len(loops) != 1:
         return None, None
     lp = loops[0]
-    norm0 = Normaliser(rename=rename)
+    means = [c for c in ast.walk(lp) if isinstance(c, ast.Call) and ast.unparse(c.func).split(".")[-1] == "mean" and c.args and
+             isinstance(c.args[0], ast.Subscript) and isinstance(c.args[0].value, ast.Name)]
+    if not means:
+        return None, None
+    arr = means[0].args[0].value.id
+    ren = {arr: "X"}
+    loopvar = lp.target.id if isinstance(lp.target, ast.Name) else None
+    if loopvar and loopvar != "i":
+        ren[loopvar] = "i"
+    fenv = straightline_env(fi.node.body, Normaliser(rename=ren), exclude=set(fi.params) | {loopvar, arr})
     rows = []
     top = [x for x in lp.body if isinstance(x, ast.If)][0]
+    after = [c for c in means if not any(c is y for y in ast.walk(top))]
+
+    def bound(env, e):
+        if e is None or (isinstance(e, ast.Constant) and e.value is None):
+            return None
+        p = env.poly(e)
+        return None if p == Poly.atom("None") else p
 
     def branch(cond, body):
-        env = straightline_env(body, Normaliser(rename=rename))
+        env = Normaliser(rename=ren)
+        env.env = dict(fenv.env)
+        straightline_env(body, env)
         reads = []
-        for st in body:
-            for n in ast.walk(st):
-                if isinstance(n, ast.Call) and ast.unparse(n.func).split(".")[-1] == "mean" and n.args and isinstance(n.args[0], ast.Subscript):
-                    sl = n.args[0].slice
-                    if isinstance(sl, ast.Slice):
-                        reads.append((env.arg(sl.lower) if sl.lower is not None else "", env.arg(sl.upper) if sl.upper is not None else ""))
+        for c in [c for st in body for c in ast.walk(st) if any(c is m for m in means)] + after:
+            sl = c.args[0].slice
+            if isinstance(sl, ast.Slice):
+                reads.append((bound(env, sl.lower), bound(env, sl.upper)))
         rows.append((cond, tuple(reads)))
     node = top
     while True:
-        branch(norm0.arg(node.test.left) + " " + type(node.test.ops[0]).__name__ + " " + norm0.arg(node.test.comparators[0])
-               if isinstance(node.test, ast.Compare) else ast.unparse(node.test), node.body)
+        t = node.test
+        branch((type(t.ops[0]).__name__, fenv.poly(t.left), fenv.poly(t.comparators[0])) if isinstance(t, ast.Compare) and len(t.ops) == 1 else
+               ("?", None, None), node.body)
         if len(node.orelse) == 1 and isinstance(node.orelse[0], ast.If):
             node = node.orelse[0]
         else:
-            branch("else", node.orelse)
+            branch(None, node.orelse)
             break
     return rows, lp
+
+
+def _show_table(t):
+    def p(x):
+        return "" if x is None else x.canon()
+    return [((c[0] + " " + p(c[1]) + " ? " + p(c[2])) if c else "else", [(p(lo), p(hi)) for lo, hi in reads]) for c, reads in (t or [])]
 
 
 def rolling_rules(chk):
     P = chk.P
     ra = P.fn(SIG + ".running_average")
     rr = P.fn(ACC + ".remove_rolling_average")
-    ta, la = window_table(ra, {"mot": "X"})
-    tb, lb = window_table(rr, {"mot": "X"})
-    want = [("i Lt 1/2*width", (("", "1 + 1*i + 1*int(1/2*width)"),)),
-            ("i Gt 1*len(X) + -1/2*width", (("1*i + -1*int(1/2*width)", ""),)),
-            ("else", (("1*i + -1*int(1/2*width)", "1 + 1*i + 1*int(1/2*width)"),))]
+    ta, la = window_table(ra)
+    tb, lb = window_table(rr)
+    oks = []
     for nm, t, fi in (("Signal.running_average", ta, ra), ("AccSignal.remove_rolling_average", tb, rr)):
-        chk.ob("R-RA-SIB", "eqsig/single.py:%s{window table}" % nm, "windows [:i+h+1] / [i-h:] / [i-h:i+h+1] with h = int(width/2)",
-               t == want, derived="%s" % (t,), loc=fi.loc())
-        if t:
-            for k, (cond, reads) in enumerate(t):
-                chk.ob("R-RA-SIB", "eqsig/single.py:%s{branch %d}" % (nm, k), "branch %d: %s" % (k, want[k] if k < len(want) else "?"),
-                       k < len(want) and (cond, reads) == want[k], derived="%s -> %s" % (cond, reads), loc=fi.loc(), nontrivial=False)
-    chk.ob("R-RA-SIB", "running_average~remove_rolling_average", "the two loops have the same window table", ta is not None and ta == tb,
-           derived="%s vs %s" % (ta, tb))
+        good = [False, False, False]
+        if t and len(t) == 3 and t[0][0] is not None and t[0][0][0] == "Lt" and t[0][0][1] == Poly.atom("i") and t[2][0] is None:
+            half = t[0][0][2]                                   # the window's half width w/2, whatever the width is called or derived from
+            ex = Normaliser(env={"Z": half})
+            H = ex.poly(ast.parse("int(Z)", mode="eval").body)
+            i_ = Poly.atom("i")
+            one = Poly.const(1)
+            want = [(("Lt", i_, half), ((None, i_ + H + one),)),
+                    (("Gt", i_, ex.poly(ast.parse("len(X) - Z", mode="eval").body)), ((i_ - H, None),)),
+                    (None, ((i_ - H, i_ + H + one),))]
+            good = [t[k] == want[k] for k in range(3)]
+        chk.ob("R-RA-SIB", "eqsig/single.py:%s{window table}" % nm, "windows [:i+h+1] / [i-h:] / [i-h:i+h+1] with h = int(w/2), branches i < w/2, "
+               "i > n - w/2, else", all(good), derived="%s" % (_show_table(t),), loc=fi.loc())
+        for k in range(3):
+            chk.ob("R-RA-SIB", "eqsig/single.py:%s{branch %d}" % (nm, k), "branch %d of the window table" % k, good[k],
+                   derived="%s" % (_show_table(t)[k] if t and k < len(t) else "?",), loc=fi.loc(), nontrivial=False)
+        oks.append(all(good))
+    chk.ob("R-RA-SIB", "running_average~remove_rolling_average", "the two loops have the same window table (each in terms of its own width)",
+           all(oks), derived="both match the table: %s" % oks)
     # ---- aliasing: writes and windowed reads inside the loop
     for q, cls in ((SIG + ".running_average", SIG), (ACC + ".remove_rolling_average", ACC)):
         fi = P.fn(q)
